@@ -80,18 +80,12 @@ func (vc *VC) parseAssigns(cls []*Clause, env *Env) (regs []region, everything b
 				}
 				hte := e.(STypeOf).T
 				gt, _, err := vc.w.resolveType(hte, env.pkg)
-				if (err != nil || gt == nil) && hte.Pkg != "" {
-					// heap[Struct.field]: the whole field heap
-					stT, _, err2 := vc.w.resolveType(&STypeExpr{Name: hte.Pkg}, env.pkg)
-					if err2 != nil || stT == nil {
-						specFail("assigns: %v", err2)
+				if err != nil || gt == nil || hte.Field != "" {
+					// heap[Struct.field] / heap[pkg.Struct.field]: the whole field heap
+					if stT, idx, ok := vc.w.resolveFieldHeap(hte, env.pkg); ok {
+						regs = append(regs, region{heap: vc.enc.FieldHeap(stT, idx), all: true})
+						continue
 					}
-					obj, index, _ := types.LookupFieldOrMethod(stT, true, env.pkgOf(stT), hte.Name)
-					if _, ok := obj.(*types.Var); !ok || len(index) != 1 {
-						specFail("assigns: no direct field %s.%s", hte.Pkg, hte.Name)
-					}
-					regs = append(regs, region{heap: vc.enc.FieldHeap(stT, index[0]), all: true})
-					continue
 				}
 				if err != nil || gt == nil {
 					specFail("assigns: %v", err)
@@ -128,17 +122,8 @@ func (vc *VC) parseAssigns(cls []*Clause, env *Env) (regs []region, everything b
 				tex := te.(STypeOf).T
 				gt, _, err := vc.w.resolveType(tex, env.pkg)
 				fieldHeap := ""
-				if (err != nil || gt == nil) && tex.Pkg != "" {
-					// loc(Struct.field, expr)
-					stT, _, err2 := vc.w.resolveType(&STypeExpr{Name: tex.Pkg}, env.pkg)
-					if err2 != nil || stT == nil {
-						specFail("assigns: %v", err2)
-					}
-					obj, index, _ := types.LookupFieldOrMethod(stT, true, env.pkgOf(stT), tex.Name)
-					if _, ok := obj.(*types.Var); !ok || len(index) != 1 {
-						specFail("assigns: no direct field %s.%s", tex.Pkg, tex.Name)
-					}
-					fieldHeap = vc.enc.FieldHeap(stT, index[0])
+				if stT, idx, ok := vc.w.resolveFieldHeap(tex, env.pkg); ok && (err != nil || gt == nil || tex.Field != "") {
+					fieldHeap = vc.enc.FieldHeap(stT, idx)
 				} else if err != nil || gt == nil {
 					specFail("assigns: %v", err)
 				}
@@ -563,6 +548,17 @@ func (vc *VC) applyContract(fc *FuncContract, name string, formals []string, act
 	envPost := &Env{vc: vc, st: st, old: pre, vars: vars2, pkg: calleePkg}
 	for _, c := range fc.Ensures {
 		vc.assume(pc, vc.evalBool(c.Expr, envPost))
+	}
+	if fc.Pure != "" && len(out) == 1 {
+		// the function is deterministic and reads nothing but the named arguments: its result is
+		// the value of a spec function of them (assumed; listed among the assumptions)
+		var args []SExpr
+		for _, a := range fc.PureArgs {
+			args = append(args, SIdent{a})
+		}
+		pv := vc.materialize(vc.eval(SCall{fc.Pure, args}, envPre), envPre)
+		vc.assume(pc, eq(out[0], pv.T))
+		vc.assumed["determinism: "+fc.Key+" computes "+fc.Pure+"("+strings.Join(fc.PureArgs, ", ")+")"] = true
 	}
 	vc.assumeGlobalInvs(st, pc)
 	return out
